@@ -75,3 +75,31 @@ MANIFEST_TEXT["C04"] = {
     "level_note": "Trusted: reference evaluator and tolerances. Known-finding classes are coarse for multi-key grouping (see DESIGN.md, Findings).",
     "technique": "runtime differential monitor (multiset of groups vs reference group-by) with shrinking, decision-list diagnosis, panic/hang monitors",
 }
+
+META["C07"] = {
+    "level": "exploration",
+    "rule": "Random histories (4-12 ops quick, up to 30 thorough) over {ingest(batch), force_flush, evict_cache, restart} on 1-2 disk-backed tables whose 3-8 columns are drawn from every C01 value class with NULL probabilities {0, .2, .6, 1} and columns withheld from every 2nd/3rd batch; partition_combine_factor in {0,1,2,4} so that compaction merges 1..k partitions at almost every flush, mem_lz4 on/off, sub-partition size {1 byte, 4 KiB, default}, tiny memory limit in some cases. At every maintenance step a probe battery (SELECT *, aggregate, filter, ORDER BY..LIMIT per table) must give identical answers immediately before and after, and SELECT * must equal the model after every op. One evaluation = one probe comparison. A step only counts as compaction if the catalogue (hook) shows partitions replaced, as eviction if bytes were evicted, as cold if a probe read from disk. Distinct non-trivial = distinct (what the step really did incl. merge arity, cold/warm, lz4, factor, sub-partition size, table count, two preceding ops).",
+    "budget": {"quick": 120, "thorough": 1200},
+    "floors": {"quick": {"evaluations": 20000, "distinct": 100, "counters": {"compactions": 300, "evictions_with_effect": 100, "cold_reads_after_step": 100}}},
+    "assumptions": COMMON_ASSUMPTIONS + ["Restarts inside a history reopen immediately after drop (as the repository's own ingestion_test does)."],
+}
+MANIFEST_TEXT["C07"] = {
+    "level_text": "Step-invariance monitor over random maintenance histories: answers of a fixed probe battery are compared immediately before and after every flush / compaction / eviction / restart of the real database, and the full table content is compared with the model after every operation. The catalogue hook proves which steps really were compactions (and of what arity); coverage floors require hundreds of them per run.",
+    "design_ref": "DESIGN.md section 3, C07",
+    "level_note": "Trusted: model + cell comparison under T-COERCE. Histories are sampled (seeded), not enumerated.",
+    "technique": "runtime before/after invariance monitor + differential comparison with a logical model, catalogue-hook coverage monitor",
+}
+META["C08"] = {
+    "level": "exploration",
+    "rule": "Bounded-exhaustive histories: every word of length <= 5 (quick; <= 7 thorough) over the alphabet {ingest->A, ingest->B, ingest->A+B (one request, two tables), force_flush, restart} that contains an ingest, each on a fresh disk-backed database, always followed by a final restart; plus random longer histories with max_wal_files in {1,2,1000}, max_wal_size_bytes in {0,200,64MiB}, io_threads {1,4}, compaction threads {1,3}, combine factor {0,1,4,999} and quiescent restarts (so background flushes run on their own). Batches carry dense int/float/string, sparse nullable int and a column only some requests have; uid = request*2^20+row identifies every row. After every restart and at the end: SELECT * of each table == model (exactly once, in order), _meta_tables lists each table once, _meta_columns_<t> lists each column once. One evaluation = one table/catalogue comparison. Distinct non-trivial = distinct history words with >= 1 ingest and >= 1 restart.",
+    "budget": {"quick": 150, "thorough": 1500},
+    "exhaustive": {"quick": True, "thorough": False},
+    "floors": {"quick": {"evaluations": 15000, "distinct": 3800}},
+    "assumptions": COMMON_ASSUMPTIONS + ["Exhaustive part: restart = drop followed immediately by LocustDB::new (default WAL limits, so no background flush is pending); random part: restart waits for every thread of the old instance to exit (liveness hook)."],
+}
+MANIFEST_TEXT["C08"] = {
+    "level_text": "Exactly-once history checker: all 3 843 informative histories of length <= 5 over {ingest A, ingest B, ingest A+B, flush, restart} are executed against the real storage engine on disk and after every restart each table must equal the model of acknowledged requests (unique uids: nothing lost, nothing replayed twice, order kept) and the catalogue must list every table/column once. Random longer histories with tiny WAL limits add background flushes.",
+    "design_ref": "DESIGN.md section 3, C08",
+    "level_note": "Exhaustive up to the stated length for one batch shape; beyond that sampled. Trusted: model, cell comparison.",
+    "technique": "offline exactly-once checker over recorded ingest/flush/restart histories (bounded-exhaustive enumeration of real executions)",
+}
